@@ -390,3 +390,60 @@ pub fn step<S: Src, const KIND: u8, const N: usize, const K: usize, const K1: us
     cover!(s, got.is_some() && plen == len + 1, "stack grew");
     std::mem::forget(map);
 }
+
+/// C10 Init: the start stack of children / children_mut / into_children is empty or holds the one
+/// node whose subtree is exactly the set of entries covered by the selector (with C03 Step this
+/// gives the traversal clause).
+pub fn children_init<S: Src, const KIND: u8, const N: usize>(s: &mut S) {
+    let (nodes, r) = pre::<S, N>(s);
+    let sub = subtree(&nodes);
+    let mut map = mk_map_simple(&nodes, &r);
+    announce(N);
+    let sel = any_p(s);
+    let z = s.idx(N);
+    let mut st = [0usize; 2];
+    let mut len = 0;
+    macro_rules! grab {
+        ($it:expr) => {{
+            let ps = $it.__verif_stack();
+            len = ps.len();
+            if len >= 1 {
+                st[0] = ps[0];
+            }
+            if len >= 2 {
+                st[1] = ps[1];
+            }
+            std::mem::forget($it);
+        }};
+    }
+    match KIND {
+        0 => {
+            let it = map.children(&sel);
+            grab!(it);
+        }
+        1 => {
+            let it = map.children_mut(&sel);
+            grab!(it);
+        }
+        _ => {
+            announce(N);
+            let m2 = mk_map_simple(&nodes, &r);
+            let it = m2.into_children(&sel);
+            grab!(it);
+        }
+    }
+    check!(s, len <= 1, "C10:children starts from at most one sub-tree");
+    if len == 1 {
+        check!(s, st[0] < N && r[st[0]], "C10:children starts at a node of the tree");
+    }
+    if entry(&nodes, &r, z) {
+        let inside = len == 1 && st[0] < N && sub[st[0]][z];
+        check!(s, inside == covers(&sel, &nodes[z].0), "C10:the start sub-tree holds exactly the entries covered by the selector");
+    }
+    cover!(s, len == 1 && node_at(&nodes, &r, &sel).is_none(), "selector on an edge (no node)");
+    cover!(s, len == 1 && node_at(&nodes, &r, &sel).is_some(), "selector is a node");
+    cover!(s, len == 0, "nothing covered");
+    cover!(s, sel.1 == 0, "zero-length selector");
+    cover!(s, len == 1 && sel.0 != mask(&sel), "selector with host bits");
+    std::mem::forget(map);
+}
